@@ -9,7 +9,9 @@
 cd /verif; . ./env.sh
 keep=0; if [ "$1" = "-k" ]; then keep=1; shift; fi
 prop=$1; shift
-ts=${@:-$(bin/refmut -list)}
+REFMUT=${REFMUT:-bin/refmut}
+ts=${@:-$($REFMUT -list | sed 's/ (typed)//')}
+typed=" $($REFMUT -list | grep '(typed)' | sed 's/ (typed)//' | tr '\n' ' ')"
 dirs=$(python3 - $prop <<'PY'
 import re,sys
 for l in open('/verif/checker/anchors_gen.go'):
@@ -23,14 +25,23 @@ for t in $ts; do
   tmp=$(mktemp -d /tmp/metamorph.XXXXXX); cp known_findings.json $tmp/
   args=""; sites=0
   for d in $dirs; do
-    for f in $(ls /repo/$d/*.go 2>/dev/null | grep -v '_test.go$\|\.pb\.go$'); do
-      rel=${f#/repo/}; out=$tmp/$(echo $rel | tr '/' '_')
-      n=$(bin/refmut -t $t $f $out 2>/dev/null) || { rm -f $out; continue; }
+    if [[ "$typed" == *" $t "* ]]; then
+      # type-aware transform: the whole package at once
+      od=$tmp/$(echo $d | tr '/' '_'); mkdir -p $od
+      while read -r fn n; do
+        [ -z "$fn" ] && continue
+        sites=$((sites+n)); args="$args -overlay $d/$fn=$od/$fn"
+      done < <($REFMUT -t $t -root ${REPO:-/repo} -dir $d -out $od 2>/dev/null)
+      continue
+    fi
+    for f in $(ls ${REPO:-/repo}/$d/*.go 2>/dev/null | grep -v '_test.go$\|\.pb\.go$'); do
+      rel=${f#${REPO:-/repo}/}; out=$tmp/$(echo $rel | tr '/' '_')
+      n=$($REFMUT -t $t $f $out 2>/dev/null) || { rm -f $out; continue; }
       [ "$n" = "0" ] && { rm -f $out; continue; }
       sites=$((sites+n)); args="$args -overlay $rel=$out"
     done
   done
-  res=$(bin/lp2pcheck -tier quick -verif $tmp $args $prop 2>&1)
+  res=$(${LP2PCHECK:-bin/lp2pcheck} -repo ${REPO:-/repo} -tier quick -verif $tmp $args $prop 2>&1)
   bad=$(echo "$res" | grep -B1 '^VIOLATION' | grep -v '^VIOLATION\|^--' | cut -c1-330; echo "$res" | grep '^ERROR' | cut -c1-300)
   if [ -n "$bad" ]; then echo "== $prop $t ($sites sites): ALARM"; echo "$bad"; rc=1; else echo "== $prop $t ($sites sites): silent"; fi
   if [ $keep -eq 1 ]; then echo "   kept: $tmp"; else rm -rf $tmp; fi
